@@ -457,6 +457,29 @@ def real_loads(run: Run, griffe, packages: list):
 
 
 ALL = {"SKIP": "{}", "SEEDS": "{1, 2, 3}"}
+class Sampler:
+    """Streaming collector for TLC transition records: de-duplicates by (pre-state, call) and keeps a seeded
+    reservoir sample of at most `cap` distinct records (millions of records never sit in memory)."""
+
+    def __init__(self, cap: int, seed: int):
+        self.cap, self.rnd, self.seen, self.keep, self.distinct = cap, random.Random(seed), set(), [], 0
+
+    def __call__(self, rec: dict):
+        import hashlib  # noqa: PLC0415
+
+        h = hashlib.md5(json.dumps([rec["pre"], rec["op"]], sort_keys=True).encode()).digest()[:10]  # noqa: S324
+        if h in self.seen:
+            return
+        self.seen.add(h)
+        self.distinct += 1
+        if len(self.keep) < self.cap:
+            self.keep.append(rec)
+        else:
+            j = self.rnd.randrange(self.distinct)
+            if j < self.cap:
+                self.keep[j] = rec
+
+
 MODES = {
     "clean": dict(ALL, LOST="FALSE", TOPDOWN="TRUE"),
     "free": dict(ALL, LOST="FALSE", TOPDOWN="FALSE"),
@@ -498,6 +521,7 @@ def main(tier: str, replay: str | None = None):
     cap = 12000 if tier == "quick" else 300000
     nsim = 100 if tier == "quick" else 2000
     jobs = {}
+    samplers = {}
     with ThreadPoolExecutor(max_workers=8) as pool:
         for mode, consts in MODES.items():
             d = {"clean": depth_check, "free": 4, "lost": 3}[mode]
@@ -505,9 +529,13 @@ def main(tier: str, replay: str | None = None):
             # every transition from the trees reachable within depth_gen calls of the first two initial trees
             # (the third, alias-rich one is explored by the "retarget" slice; quick restricts the lost domain to tree 2)
             seeds = "{1, 2}" if (tier == "quick" and mode != "lost") else ("{2}" if tier == "quick" else "{1, 2, 3}")
-            jobs["gen", mode] = pool.submit(tlc.run, "Tree", "Tree_gen.cfg", workers=2, constants=dict(consts, GEN="trans", DEPTH=depth_gen, SEEDS=seeds), timeout=6000, heap="4g")
+            samplers["gen", mode] = Sampler(cap if mode == "clean" else cap // 2, SEED)
+            jobs["gen", mode] = pool.submit(tlc.run, "Tree", "Tree_gen.cfg", workers=2, constants=dict(consts, GEN="trans", DEPTH=depth_gen, SEEDS=seeds), timeout=6000, heap="4g",
+                                            on_line=samplers["gen", mode], keep_cases=False)
         for name, (_, consts, dq, dt) in SLICES.items():
-            jobs["rare", name] = pool.submit(tlc.run, "Tree", "Tree_rare.cfg", workers=3, constants=dict(consts, DEPTH=dq if tier == "quick" else dt), timeout=6000, heap="4g")
+            samplers["rare", name] = Sampler(cap, SEED + 7)
+            jobs["rare", name] = pool.submit(tlc.run, "Tree", "Tree_rare.cfg", workers=3, constants=dict(consts, DEPTH=dq if tier == "quick" else dt), timeout=6000, heap="4g",
+                                             on_line=samplers["rare", name], keep_cases=False)
         for mode in ("clean", "free"):
             jobs["sim", mode] = pool.submit(tlc.run, "Tree", "Tree_gen.cfg", workers=1, constants=dict(MODES[mode], GEN="hist", DEPTH=14), simulate=f"num={nsim}", depth=15, seed=SEED + 1, timeout=6000)
     model_verdicts = {}
@@ -539,25 +567,18 @@ def main(tier: str, replay: str | None = None):
         res = jobs["gen", mode].result()
         tlc.must(res)
         run.add_tlc(res)
-        seen, uniq = set(), []
-        for c in res.cases:   # de-duplicate transitions reached along several paths
-            k = json.dumps([c["pre"], c["op"]], sort_keys=True)
-            if k not in seen:
-                seen.add(k)
-                uniq.append(c)
-        drift += replay_transitions(run, griffe, uniq, mode, cap if mode == "clean" else cap // 2, rnd)
+        smp = samplers["gen", mode]
+        if smp.distinct > len(smp.keep):
+            run.exhaustive = False
+        run.extra.setdefault("distinct_transitions", {})["gen-" + mode] = smp.distinct
+        drift += replay_transitions(run, griffe, smp.keep, mode, len(smp.keep) + 1, rnd)
     for name, (mode, _, _, _) in SLICES.items():
         res = jobs["rare", name].result()
         tlc.must(res)
         run.add_tlc(res)
-        seen, uniq = set(), []
-        for c in res.cases:
-            k = json.dumps([c["pre"], c["op"]], sort_keys=True)
-            if k not in seen:
-                seen.add(k)
-                uniq.append(c)
-        run.extra.setdefault("rare_transitions", {})[name] = len(uniq)
-        drift += replay_transitions(run, griffe, uniq, mode, cap, rnd)
+        smp = samplers["rare", name]
+        run.extra.setdefault("rare_transitions", {})[name] = smp.distinct
+        drift += replay_transitions(run, griffe, smp.keep, mode, len(smp.keep) + 1, rnd)
     for mode in ("clean", "free"):
         res = jobs["sim", mode].result()
         if res.errors:
